@@ -55,7 +55,8 @@ def cases(rng, tier):
             leaves.append(t.to_json())
             masks.append([[rng.random() < 0.6 for _ in range(N)], [rng.random() < 0.6 for _ in range(N)]])
         masks[0][0][0] = True
-        out.append({"leaves": leaves, "masks": masks, "prog": gen_prog(rng, len(leaves), rng.randint(1, 3), N, shape),
+        f32 = 0 if rng.random() < 0.12 else None       # a single-precision model (leaf 0) against double-precision data
+        out.append({"f32": f32, "leaves": leaves, "masks": masks, "prog": gen_prog(rng, len(leaves), rng.randint(1, 3), N, shape),
                     "head": rng.choice(HEADS), "prog2": gen_prog(rng, len(leaves), 1, N, shape), "seed": rng.randrange(1 << 30)})
     return out
 
@@ -135,10 +136,11 @@ def head_dense(h, x, y):
 
 def build_leaves(case):
     tns, params = [], []
-    for lj, mk in zip(case["leaves"], case["masks"]):
+    for li, (lj, mk) in enumerate(zip(case["leaves"], case["masks"])):
         p = PT.from_json(lj)
-        cores = [torch.tensor(c, dtype=torch.float64) for c in p.cores]
-        Us = [None if U is None else torch.tensor(U, dtype=torch.float64) for U in p.Us]
+        dt = torch.float32 if case.get("f32") == li else torch.float64
+        cores = [torch.tensor(c, dtype=dt) for c in p.cores]
+        Us = [None if U is None else torch.tensor(U, dtype=dt) for U in p.Us]
         for n in range(p.N):
             if mk[0][n]:
                 cores[n].requires_grad_(); params.append(cores[n])
@@ -160,14 +162,23 @@ def run_case(ctx, case):
             ctx.count("op:" + k)
     # ---- compressed path
     tns, params = build_leaves(case)
+    mixed = case.get("f32") is not None
+    VT, GT = (1e-4, 2e-3) if mixed else (1e-8, 1e-7)
+    if mixed:
+        ctx.count("mixed precision: leaf 0 float32")
     r = safe(lambda: head_comp(h, ev(case["prog"], tns, COMP), ev(case["prog2"], tns, COMP)))
     if r[0] == "err":
+        if mixed:
+            ctx.count("mixed precision: compressed program raised %s (not a silent detachment)" % r[1]); return
         ctx.oracle("compressed program raised %s: %s" % (r[1], r[2]), case); return
     val = r[1]
     # ---- dense path (same parameters, through .torch())
     tns2, params2 = build_leaves(case)
     dl = [t.torch() for t in tns2]
-    val2 = head_dense(h, ev(case["prog"], dl, DENSE), ev(case["prog2"], dl, DENSE))
+    rd = safe(lambda: head_dense(h, ev(case["prog"], dl, DENSE), ev(case["prog2"], dl, DENSE)))
+    if rd[0] == "err":
+        ctx.count("dense reference raised %s" % rd[1]); return
+    val2 = rd[1]
     if not val2.requires_grad:
         ctx.count("skipped:program does not touch a parameter"); return
     if not isinstance(val, torch.Tensor) or not val.requires_grad:
@@ -183,15 +194,15 @@ def run_case(ctx, case):
         if float(val) ** 2 > 1e-12 * S * S:
             ctx.oracle("values differ at a cancelling program: compressed %r dense %r" % (float(val), float(val2)), case)
         ctx.count("skipped:sqrt at 0"); return
-    if not close(val.detach().numpy(), val2.detach().numpy(), 1e-8)[0]:
+    if not close(val.detach().double().numpy(), val2.detach().double().numpy(), VT)[0]:
         ctx.oracle("values differ: compressed %r dense %r" % (float(val), float(val2)), case)
         return
     scale = max([float(g.abs().max()) for g in g2 if g is not None] + [1e-12])
     for k, (a, b) in enumerate(zip(g1, g2)):
         za = torch.zeros_like(params[k]) if a is None else a
         zb = torch.zeros_like(params2[k]) if b is None else b
-        err = float((za - zb).abs().max()) / max(scale, 1.0)
-        if err > 1e-7:
+        err = float((za.double() - zb.double()).abs().max()) / max(scale, 1.0)
+        if err > GT:
             ctx.oracle("gradient w.r.t. parameter %d differs between the compressed and the dense path (scaled error %.3g, head %s, program %s)"
                        % (k, err, h, case["prog"]), case, cls={"op": "gradient", "predicate": "scalar multiplication in program" if any(
                            s in repr(case["prog"]) for s in ("smul", "rsmul", "div", "neg", "sub")) else "other"})
@@ -199,6 +210,8 @@ def run_case(ctx, case):
             return
     if not use_model:
         return
+    if mixed:
+        ctx.count("model skipped: mixed precision (oracle only)"); return
     if "'ts" in repr(case["prog"]):
         ctx.count("model skipped: tensor-valued scalar in the program (oracle only)"); return
     # ---- model over dual numbers: tangents on the parameters, directional derivative of <C, cores(result)>
